@@ -67,6 +67,7 @@ def check_chunk(args):
     open(src, "w").write("int x;\n")
     try:
         for ci, case in enumerate(cases):
+            core.tick(case, 300)
             if not case["ok"]:
                 stats["ill"] += 1
                 continue
